@@ -3,3 +3,4 @@ pub mod modules;
 pub mod tms;
 pub mod kb;
 pub mod watermark;
+pub mod undo;
